@@ -55,8 +55,51 @@ func (p pk) String() string {
 	return fmt.Sprintf("(s%d m%d k%d ctl=%v len%d)", p.s, p.m, p.kind, p.ctl, len(p.data))
 }
 
+// chunkReader hands out at most chunk bytes per Read; with errWithData the final bytes come together
+// with io.EOF (as some transports and io.Reader adaptors do).
+type chunkReader struct {
+	b           []byte
+	chunk       int
+	errWithData bool
+}
+
+func (c *chunkReader) Read(p []byte) (int, error) {
+	if len(c.b) == 0 {
+		return 0, io.EOF
+	}
+	n := len(p)
+	if c.chunk > 0 && n > c.chunk {
+		n = c.chunk
+	}
+	if n > len(c.b) {
+		n = len(c.b)
+	}
+	copy(p, c.b[:n])
+	c.b = c.b[n:]
+	if len(c.b) == 0 && c.errWithData {
+		return n, io.EOF
+	}
+	return n, nil
+}
+
+// decodeNew decodes with the current reader and checks on the way that the result does not depend on
+// how the bytes are cut into reads or on whether the end of the stream is reported with the last bytes.
 func decodeNew(b []byte) (out []pk, err error) {
-	rd := drpcwire.NewReaderWithOptions(bytes.NewReader(b), drpcwire.ReaderOptions{MaximumBufferSize: 4 << 20})
+	out, err = decodeNewFrom(bytes.NewReader(b))
+	for _, v := range []*chunkReader{{b: b, errWithData: true}, {b: b, chunk: 1000}, {b: b, chunk: 65536, errWithData: true}, {b: b, chunk: 7}} {
+		if v.chunk == 7 && len(b) > 1<<16 {
+			continue
+		}
+		o2, e2 := decodeNewFrom(v)
+		if (e2 == nil) != (err == nil) || diff(out, o2) != "" {
+			return o2, fmt.Errorf("the current reader's answer depends on the read pattern (chunk=%d, end of stream with data=%v): %d packets, err=%v, against %d packets, err=%v when read in one piece; %s", v.chunk, v.errWithData, len(o2), e2, len(out), err, diff(out, o2))
+		}
+	}
+	return out, err
+}
+
+func decodeNewFrom(src io.Reader) (out []pk, err error) {
+	rd := drpcwire.NewReaderWithOptions(src, drpcwire.ReaderOptions{MaximumBufferSize: 4 << 20})
 	for {
 		p, e := rd.ReadPacket()
 		if e != nil {
@@ -776,6 +819,41 @@ func largeMessages(id string, seed uint64) runner.Result {
 	return res
 }
 
+// abandonedLarge: the released writer abandons a packet that had nearly filled the reader's maximum
+// (its stream ended between frames) and goes on with the next message; both readers must discard the
+// unfinished packet and deliver what follows.
+func abandonedLarge(id string, seed uint64) runner.Result {
+	r := &payload.SplitMix{S: seed}
+	var b []byte
+	nf := 56 + r.Intn(8)
+	chunk := make([]byte, 64<<10)
+	for f := 0; f < nf; f++ {
+		b = oldwire.AppendFrame(b, oldwire.Frame{Data: chunk, ID: oldwire.ID{Stream: 1, Message: 1}, Kind: oldwire.KindMessage, Done: false})
+	}
+	next := payload.Make(1, 0, 0, 2, (256<<10)+r.Intn(512<<10))
+	sid, mid := uint64(1), uint64(2)
+	if r.Intn(2) == 0 {
+		sid, mid = 2, 1
+	}
+	b = oldwire.AppendFrame(b, oldwire.Frame{Data: next, ID: oldwire.ID{Stream: sid, Message: mid}, Kind: oldwire.KindMessage, Done: true})
+	b = oldwire.AppendFrame(b, oldwire.Frame{ID: oldwire.ID{Stream: sid, Message: mid + 1}, Kind: oldwire.KindCloseSend, Done: true})
+	hist := fmt.Sprintf("%d unfinished 64 KiB frames of (1,1), then a %d-byte message (%d,%d) and a half-close", nf, len(next), sid, mid)
+	pn, en := decodeNew(b)
+	po, eo := decodeOld(b)
+	switch {
+	case eo != nil:
+		return runner.Hold(id, "the released reader rejects it itself: "+hist, false)
+	case en != nil:
+		return runner.Violation(id, "old-to-new:abandoned-large-rejected", hist+"\nthe current reader rejects a stream that v0.0.17 accepts: "+en.Error())
+	}
+	if d := diff(po, pn); d != "" {
+		return runner.Violation(id, "old-to-new:abandoned-large-differs", hist+"\n"+d)
+	}
+	res := runner.Hold(id, hist, len(pn) > 0)
+	res.Events = int64(len(pn))
+	return res
+}
+
 // metadataCompat: a batch of seeded metadata maps with key/value lengths at the length-prefix
 // boundaries; what the current encoder writes is read back identically by v0.0.17, and what v0.0.17
 // writes is read back identically by the current decoder.
@@ -862,6 +940,9 @@ func gen(tier string, seed uint64) []runner.Scenario {
 		add("control-injection", func(id string) runner.Result { return controlInjection(id, payload.Hash(seed, 0x185, uint64(i))) })
 		add("writer-api-to-old", func(id string) runner.Result { return writerAPIToOld(id, payload.Hash(seed, 0x187, uint64(i))) })
 		add("large-ids-old-to-new", func(id string) runner.Result { return largeIDs(id, payload.Hash(seed, 0x188, uint64(i))) })
+		if i%25 == 0 {
+			add("abandoned-large-old-to-new", func(id string) runner.Result { return abandonedLarge(id, payload.Hash(seed, 0x18A, uint64(i))) })
+		}
 		if i%10 == 0 {
 			add("large-message-new-to-old", func(id string) runner.Result { return largeMessages(id, payload.Hash(seed, 0x189, uint64(i))) })
 		}
